@@ -188,6 +188,13 @@ def blockRange (addr mask : Bytes) (prefixLen : Nat) : Range :=
     ⟨setLastBit left, clearLastBit right⟩
   else ⟨left, right⟩
 
+/-- the text after the slash as a prefix length: strconv.Atoi, but a sign makes it no CIDR notation -/
+def prefixLenOf (tail : Bytes) : Option Int :=
+  match tail with
+  | 43 :: _ => none
+  | 45 :: _ => none
+  | _ => atoi tail
+
 def parseCIDRorMask (s : Bytes) (sepIdx : Nat) : Option Range :=
   if sepIdx == s.length - 1 then none else
   match parseIP (s.take sepIdx) with
@@ -195,7 +202,7 @@ def parseCIDRorMask (s : Bytes) (sepIdx : Nat) : Option Range :=
   | some addr =>
     let tail := s.drop (sepIdx + 1)
     let maskAsIP := parseIP tail
-    let prefixLen? := atoi tail
+    let prefixLen? := prefixLenOf tail
     let addr' : Bytes := match to4 addr with | some a => a | none => addr
     let addrLen := addr'.length
     let mp : Option (Bytes × Nat) :=
